@@ -215,6 +215,40 @@ class GaussScalar(SimModel):
         return np.array([self.raw_log_likelihood(x[i:i + 1]) for i in range(x.size)])
 
 
+class GaussArray1(SimModel):
+    """Non-vectorised likelihood that returns a length-1 array per point."""
+
+    kind = "gauss_array1"
+    allow_vectorised = False
+
+    def raw_log_likelihood(self, x):
+        x = np.atleast_1d(x)
+        if x.size != 1:
+            raise ValueError("one point at a time")
+        return np.atleast_1d(SimModel.raw_log_likelihood(self, x))
+
+    def ref_log_likelihood(self, x):
+        x = np.atleast_1d(x)
+        return np.array([float(self.raw_log_likelihood(x[i:i + 1])[0]) for i in range(x.size)])
+
+
+class GaussScalarPrior(SimModel):
+    """Vectorised likelihood, prior written for one point at a time: it sums per-parameter terms
+    into one float (for a batch that is the sum over all points, which nessai must never use)."""
+
+    kind = "gauss_scalar_prior"
+
+    def log_prior(self, x):
+        x = np.atleast_1d(x)
+        if x.size == 1:
+            return SimModel.log_prior(self, x)
+        return float(np.sum(SimModel.log_prior(self, x)))
+
+    def ref_log_prior(self, x):
+        x = np.atleast_1d(x)
+        return np.array([float(np.asarray(SimModel.log_prior(self, x[i:i + 1])).reshape(-1)[0]) for i in range(x.size)])
+
+
 class GaussAnalytic(SimModel):
     """new_point draws from the prior (for analytic_priors=True)."""
 
@@ -237,9 +271,10 @@ class GaussGW(SimModel):
     kind = "gauss_gw"
 
     def __init__(self, dims=3, bound=5.0):
-        names = ["mass_ratio", "a_1", "tilt_1"][:dims]
+        names = ["mass_ratio", "a_1", "tilt_1", "psi", "phase"][:dims]
         self.names = names
-        b = {"mass_ratio": [0.125, 1.0], "a_1": [0.0, 0.99], "tilt_1": [0.0, np.pi]}
+        b = {"mass_ratio": [0.125, 1.0], "a_1": [0.0, 0.99], "tilt_1": [0.0, np.pi], "psi": [0.0, np.pi],
+             "phase": [0.0, 2 * np.pi]}
         self.bounds = {n: b[n] for n in names}
         self._lo = np.array([self.bounds[n][0] for n in self.names])
         self._hi = np.array([self.bounds[n][1] for n in self.names])
@@ -261,6 +296,8 @@ ZOO = {
     "gauss_constrained": GaussConstrained,
     "gauss_quantised": GaussQuantised,
     "gauss_sloppy_prior": GaussSloppyPrior,
+    "gauss_array1": GaussArray1,
+    "gauss_scalar_prior": GaussScalarPrior,
     "gauss_analytic": GaussAnalytic,
     "gauss_gw": GaussGW,
 }
